@@ -144,6 +144,18 @@ def mmsCanonical (cfg : IntrCfg) : Expr → Bool
   | .nil => true
   | .cons _ e rest => mmsCanonical cfg e && mmsCanonical cfg rest
 
+/-- Fortran 2008 C412 (R413 real-literal-constant): "if both kind-param and exponent-letter are present,
+exponent-letter shall be E" — a literal token with exponent letter `d` must not carry a kind suffix. -/
+def LitTok.std : LitTok → Bool
+  | .num _ _ .d k => k == .none
+  | _ => true
+
+/-- every literal token of the list is a standard lexeme -/
+def litToksStd : List Tok → Bool
+  | .lit l :: r => l.std && litToksStd r
+  | _ :: r => litToksStd r
+  | [] => true
+
 /-- argument list from a Lean list (for statements about permutations) -/
 def ofArgs : List (Option Nat × Expr) → Expr
   | [] => .nil
